@@ -86,15 +86,19 @@ def report (E : Bee.Env Nat) (g : Bee.Gen Nat) (out : List Sexp) (probes : List 
     -- specification on the probes: membership and cost
     .list (probes.map fun p => .list [ofBool (gen E.G p E.G.start), ofInt (Bee.pcost E p E.G.start)]),
     -- decidable hypotheses of the theorems, evaluated on the case
-    .list [ofBool (Bee.hasCosts E), ofBool (Bee.nonnegCosts E), ofBool (Bee.posArgCosts E), ofBool (Bee.nonnegW E)]]
+    .list [ofBool (Bee.hasCosts E), ofBool (Bee.nonnegCosts E), ofBool (Bee.posArgCosts E), ofBool (Bee.nonnegW E),
+           ofBool (Bee.dictOK E), ofBool (Bee.initFrontOK E), ofBool (Bee.initCoverOK E)]]
 
-def handleRun (gr rej script fuel progs probes : Sexp) : Option Sexp := do
+def handleRun (gr rej script fuel progs probes fix maxc : Sexp) : Option Sexp := do
+  let fix ← fix.bool?
+  let maxc : Option Int := maxc.int?
   let (G, W) ← decGrammar gr
   let rejected ← allSome decProg (← rej.list?)
   let acts ← allSome decAct (← script.list?)
   let fuel ← fuel.nat?
   let probes ← allSome decProg (← probes.list?)
-  let E : Bee.Env Nat := { G := G, W := W, filter := fun p => !rejected.contains p, progs0 := ← progs.int? }
+  let E : Bee.Env Nat := { G := G, W := W, filter := fun p => !rejected.contains p, progs0 := ← progs.int?,
+                           fixF11 := fix, maxCost := maxc }
   match Bee.Gen.new E with
   | none => pure (.list [.atom "undef", .atom "init"])
   | some g0 =>
@@ -103,7 +107,8 @@ def handleRun (gr rej script fuel progs probes : Sexp) : Option Sexp := do
     | some (g, out) => pure (report E g out probes)
 
 def handle : Sexp → Option Sexp
-  | .list [.atom "bee.run", gr, rej, script, fuel, progs, probes] => handleRun gr rej script fuel progs probes
+  | .list [.atom "bee.run", gr, rej, script, fuel, progs, probes] => handleRun gr rej script fuel progs probes (.atom "0") (.atom "none")
+  | .list [.atom "bee.run", gr, rej, script, fuel, progs, probes, fix, maxc] => handleRun gr rej script fuel progs probes fix maxc
   | _ => none
 
 end PS.C93
